@@ -394,9 +394,108 @@ def _upstreams_ok(c, pr, x):
     return True
 
 
+# --------------------------------------------------------------------- C11
+
+
+def check_C11(c):
+    """Run 1 of an experiment is killed at some point; the same plan is run again."""
+    out = []
+    crashed = sorted(c.crashed)
+    stopped = {ev[5]["pid"] for ev in c.by["signal"] if c.proc_index.get(ev[5]["pid"]) is not None}
+    allok = all((t.get("out") or ["ok"]) == ["ok"] for t in c.tasks) and not c.scn.get("jobfaults")
+    # bodies: never overlapping, none after success (same clauses as C05), exactly once overall
+    running = defaultdict(int)
+    ok_count = defaultdict(int)
+    starts = defaultdict(int)
+    for ev in c.events:
+        if ev[4] == "body-start":
+            x = ev[5]["x"]
+            starts[x] += 1
+            if running[x] > 0:
+                out.append(V("C11", "body-overlap", {}, "two bodies of x=%d run at once (seq %d)" % (x, ev[0])))
+            if ev[5].get("done"):
+                out.append(V("C11", "body-after-success", {}, "body of x=%d started although its success marker existed" % x))
+            running[x] += 1
+        elif ev[4] == "body-end":
+            running[ev[5]["x"]] -= 1
+            if ev[5]["outcome"] == "ok":
+                ok_count[ev[5]["x"]] += 1
+    for x, n in sorted(ok_count.items()):
+        if n > 1:
+            out.append(V("C11", "body-completed-twice", {}, "body of x=%d completed successfully %d times" % (x, n)))
+    if allok:
+        for x, n in sorted(starts.items()):
+            if n > 1:
+                out.append(V("C11", "body-repeated", {}, "body of x=%d started %d times although nothing fails" % (x, n)))
+    # adoption: no launch of a job that is running with a complete pid file
+    alive_at = {}   # jpid -> (x, start seq, end seq)
+    spans = []
+    for ev in c.by["spawn"]:
+        spans.append([ev[5]["jpid"], ev[5]["x"], ev[0], None])
+    for ev in c.events:
+        if ev[4] == "proc-exit" and ev[5].get("kind") == "job":
+            for s in spans:
+                if s[0] == ev[2] and s[3] is None and s[2] < ev[0]:
+                    s[3] = ev[0]
+                    break
+        elif ev[4] == "proc-killed" and ev[5].get("kind") == "job":
+            for s in spans:
+                if s[0] == ev[5]["pid"] and s[3] is None and s[2] < ev[0]:
+                    s[3] = ev[0]
+                    break
+    subm = {}
+    for ev in c.by["submit-call"]:
+        subm[(ev[2], ev[5]["x"])] = ev
+    for ev in c.by["spawn"]:
+        pid, x = ev[2], ev[5]["x"]
+        sc = subm.get((pid, x))
+        if sc is None or not (sc[5].get("pidfile") == "ok" and sc[5].get("pidfile_alive")):
+            continue
+        still = [s for s in spans if s[1] == x and s[2] < sc[0] and (s[3] is None or s[3] > ev[0])]
+        if still:
+            out.append(V("C11", "running-job-relaunched", {},
+                         "pid %d launched x=%d at seq %d while process %d of the same job (complete pid file at submit) was still running"
+                         % (pid, x, ev[0], still[0][0])))
+    # second run: same final results, no exception, no hang
+    for i, pr in sorted(c.final["procs"].items()):
+        if pr["kind"] != "sched" or pr["pid"] in c.crashed:
+            continue
+        pid = pr["pid"]
+        if pr["hung"]:
+            out.append(V("C11", "restart-hang", {"site": hang_site(c, pid)},
+                         "restarted experiment (pid %d) parked in %s at quiescence; jobs %s"
+                         % (pid, hang_site(c, pid), {x: j["state"] for x, j in pr.get("jobs", {}).items()})))
+            continue
+        if pid in stopped:
+            continue
+        for ev in c.by["xp-exit"]:
+            if ev[2] != pid:
+                continue
+            exc = ev[5].get("exc")
+            if exc not in (None, "FailedExperiment"):
+                out.append(V("C11", "restart-exception", {"exc": exc, "tb": (ev[5].get("tb") or ["?"])[-1]},
+                             "restarted experiment raised %s: %s (%s)" % (exc, ev[5].get("msg"), ev[5].get("tb"))))
+            elif allok and exc is not None:
+                out.append(V("C11", "restart-failed", {}, "restarted experiment reports failure although no task fails"))
+        for ev in c.by["submit-raise"]:
+            if ev[2] == pid:
+                out.append(V("C11", "restart-exception", {"exc": ev[5]["exc"], "tb": "submit"},
+                             "submit of x=%s raised %s: %s" % (ev[5]["x"], ev[5]["exc"], ev[5].get("msg"))))
+        if allok and not any(e[2] == pid for e in c.by["user-raise"]):
+            for x, j in pr.get("jobs", {}).items():
+                if j["result"] != "DONE":
+                    out.append(V("C11", "restart-wrong-result", {"result": str(j["result"])[:40]},
+                                 "x=%s: final result %s in the restarted experiment" % (x, j["result"])))
+    if not c.final["jobs_alive"]:
+        for name, files in c.final["tokfiles"].items():
+            if files:
+                out.append(V("C11", "token-file-left", {}, "token files %s left in %s after the restart" % (files, name)))
+    return out
+
+
 ORACLES = {
     "C04": check_C04, "C05": check_C05, "C06": check_C06, "C07": check_C07,
-    "C08": check_C08, "C09": check_C09,
+    "C08": check_C08, "C09": check_C09, "C11": check_C11,
 }
 
 
